@@ -8,7 +8,7 @@
    alignment characters not to be \w, and a \d character to be \w: facts of the generated tables
    (Props/C13.v, C13_ucd_facts).  The equivalence itself is tied by the correspondence check, not proved.
 
-   Oracles: \w, \d of the re module; str.isdigit, str.isdecimal; the decimal value of a \d character;
+   Oracles: \w, \d of the re module; str.isdecimal; the decimal value of a \d character;
    the interpreter's int_max_str_digits (0 = unlimited). *)
 From Coq Require Import List NArith ZArith Bool.
 From I18n Require Import Lib.Outcome.
@@ -18,7 +18,6 @@ Local Open Scope N_scope.
 Record ucd := {
   u_w : N -> bool;            (* re \w *)
   u_d : N -> bool;            (* re \d *)
-  u_isdigit : N -> bool;      (* str.isdigit, one character *)
   u_isdecimal : N -> bool;    (* str.isdecimal, one character *)
   u_decval : N -> option N;   (* int(ch) for a decimal character *)
   u_maxd : N }.               (* sys.get_int_max_str_digits() *)
@@ -306,7 +305,7 @@ Definition add_argument (st : bstate) (name : option (list N)) : outcome (akey *
                 else Ok (KNum n, {| b_next := Some (n + 1)%Z; b_map := b_map st |})
     end
   | Some nm =>
-    if (match nm with [] => false | _ => forallb (u_isdigit U) nm end) then       (* name.isdigit() *)
+    if (match nm with [] => false | _ => forallb (u_isdecimal U) nm end) then     (* name.isdecimal() *)
       do n <- py_int nm;
       if (n >? ssize_max)%Z then Err XOverflow else
       match b_next st with
